@@ -719,6 +719,16 @@ func (h *HttpServer) handleExchangeCall(ctx context.Context, w http.ResponseWrit
 		InputMetadata: stripFrameworkTickMetadata(inputMeta),
 	}
 
+	// The batch object itself still carries the request's custom metadata,
+	// including the sealed cursor and call tokens. Hand the handler a batch
+	// whose metadata is the same stripped view as CallContext.InputMetadata.
+	if bwm, ok := inputBatch.(arrow.RecordBatchWithMetadata); ok && bwm.Metadata().Len() > 0 {
+		clean := array.NewRecordBatchWithMetadata(inputBatch.Schema(), inputBatch.Columns(),
+			inputBatch.NumRows(), stripFrameworkTickMetadata(bwm.Metadata()))
+		defer clean.Release()
+		inputBatch = clean
+	}
+
 	var exchangeErr error
 	func() {
 		defer func() {
